@@ -212,7 +212,31 @@ func suiteClient(args []string) {
 	}
 	g := &gen{r: r, wf: true}
 	shapes := allReplyShapes()
-	total := *n + len(shapes)
+	// every cut in the tail of a reply whose LAST field is a text string with a length that is a multiple of 8 (no padding after it):
+	// the peer sends the prefix and closes cleanly - a reply cut off anywhere is an error, never a (shortened) payload
+	type forcedCase struct {
+		op      kmip.Enum
+		payload interface{}
+		reply   []byte
+	}
+	var forced []forcedCase
+	for _, idLen := range []int{8, 16, 40} {
+		resp := kmip.Response{Header: kmip.ResponseHeader{Version: kmip.ProtocolVersion{Major: 1, Minor: 4}, TimeStamp: time.Unix(1000, 0), BatchCount: 1},
+			BatchItems: []kmip.ResponseBatchItem{{Operation: kmip.OPERATION_ACTIVATE, ResultStatus: kmip.RESULT_STATUS_SUCCESS,
+				ResponsePayload: kmip.ActivateResponse{UniqueIdentifier: strings.Repeat("k", idLen)}}}}
+		_, full := implEncode(&resp)
+		if full == nil {
+			continue
+		}
+		from := len(full) - idLen - 12
+		for cut := from; cut <= len(full); cut++ {
+			if cut < len(full)-20 && cut%3 != 0 && idLen > 8 {
+				continue
+			}
+			forced = append(forced, forcedCase{kmip.OPERATION_ACTIVATE, kmip.ActivateRequest{UniqueIdentifier: "x"}, append([]byte(nil), full[:cut]...)})
+		}
+	}
+	total := *n + len(shapes) + len(forced)
 	for i := 0; i < total; i++ {
 		op := reqOps[r.Intn(len(reqOps))]
 		if _, ok := specResponsePayload[op]; !ok {
@@ -237,6 +261,11 @@ func suiteClient(args []string) {
 			reply = genReply(r, g, op, randomReplyShape(r))
 		}
 		connected := i%17 != 5
+		if k := i - (*n + len(shapes)); k >= 0 {
+			dv, connected = false, true
+			op, payload, reply = forced[k].op, forced[k].payload, forced[k].reply
+			rep.Distribution["reply-cut-in-final-string"]++
+		}
 		ver := kmip.ProtocolVersion{Major: 1, Minor: int32(r.Intn(5))}
 		if i%5 == 0 {
 			ver = kmip.ProtocolVersion{} // defaults to 1.4 in Connect
@@ -549,16 +578,24 @@ func suiteTLS(args []string) {
 
 	// ---- role 1: peers attacking a Server prepared with DefaultServerTLSConfig ----
 	// (fresh configuration, then one that held weaker settings before the call)
-	for _, weak := range []bool{false, true} {
+	for _, variant := range []string{"", "weak", "shared"} {
+		weak := variant != ""
 		roleName := "server"
 		var sessAuthCalls, handlerCalls int32
 		scfg := &tls.Config{Certificates: []tls.Certificate{p.server["valid"]}, ClientCAs: p.pool}
-		if weak {
+		if variant == "weak" {
 			roleName = "server-weak"
 			scfg.MinVersion = tls.VersionTLS10
 			scfg.ClientAuth = tls.VerifyClientCertIfGiven
 		}
 		kmip.DefaultServerTLSConfig(scfg)
+		if variant == "shared" {
+			// one *tls.Config prepared for both roles (a process that is a KMIP server and a client of another one):
+			// the client helper must leave what the server helper established
+			roleName = "server-shared"
+			scfg.RootCAs = p.pool
+			kmip.DefaultClientTLSConfig(scfg)
+		}
 		srv := &kmip.Server{TLSConfig: scfg, Log: log.New(io.Discard, "", 0), ReadTimeout: 2 * time.Second, WriteTimeout: 2 * time.Second}
 		srv.SessionAuthHandler = func(conn net.Conn) (interface{}, error) { atomic.AddInt32(&sessAuthCalls, 1); return nil, nil }
 		srv.Handle(kmip.OPERATION_GET, func(ctx *kmip.RequestContext, item *kmip.RequestBatchItem) (interface{}, error) {
